@@ -7,7 +7,10 @@ import os
 import vlib
 
 QUICK = [("pipe_quick", 900), ("pt_quick", 700), ("pipe_ref_quick", 200), ("pipe_name_quick", 200), ("pt_ref_quick", 168)]
-THOROUGH = [("pipe_thorough", 12000), ("pt_thorough", 10000), ("pipe_ref_thorough", 3000), ("pipe_name_thorough", 3000), ("pt_ref_thorough", 1750)]
+# (the thorough cfgs explore deeper interleavings without the decorations "ver" / "forge" - as state they would multiply 11M
+# states by four; the decorations are covered by every scenario of the quick cfgs, which have them)
+THOROUGH = [("pipe_thorough", 12000), ("pt_thorough", 10000), ("pipe_ref_thorough", 3000), ("pipe_name_thorough", 3000), ("pt_ref_thorough", 1750),
+            ("pipe_quick", 8000), ("pt_quick", 6000)]
 
 FORMULAS = {
     "C01": ["NoLeak", "AtMostOne", "NameStable", "Quiescent", "Tie"],
